@@ -59,7 +59,7 @@ def components : List Comp := [
   ⟨"serial", Scales.Serial.comp.run⟩,
   ⟨"serial2", Scales.SerialC02.comp.run⟩,
   ⟨"serial12", Scales.SerialC12.comp.run⟩,
-  ⟨"muxt", Scales.MuxT.comp.run⟩,
+  ⟨"muxt", Scales.MuxT.pcomp.run⟩,
   ⟨"watermark", Scales.Watermark.comp.run⟩,
   ⟨"serverset", Scales.ServerSet.comp.run⟩,
   ⟨"lbheap", Scales.LB.comp5.run⟩,
